@@ -249,8 +249,8 @@ Proof.
     apply emit_float_norm_value; assumption.
 Qed.
 
-Theorem emit_float_rust_value m e : overflows m e = false -> sql_number_value (emit_float_rust m e) = Some (norm_dec m e).
-Proof. intro H. unfold emit_float_rust. rewrite H. apply emit_float_value. Qed.
+Theorem emit_float_rust_value m e t : emit_float_rust m e = Some t -> sql_number_value t = Some (norm_dec m e).
+Proof. unfold emit_float_rust. destruct (overflows m e); [discriminate|]. intro H. injection H as <-. apply emit_float_value. Qed.
 
 (* ------------------------------------------------------------------ the emitted text is ONE number token *)
 
@@ -352,3 +352,6 @@ Theorem emit_float_one_token d m e : sql_lex d (emit_float m e) = [TNumber (emit
 Proof.
   unfold emit_float. destruct (m =? 0); [reflexivity|]. destruct (norm_dec m e) as [m' e']. apply emit_float_norm_one_token.
 Qed.
+
+Theorem emit_float_rust_one_token d m e t : emit_float_rust m e = Some t -> sql_lex d t = [TNumber t].
+Proof. unfold emit_float_rust. destruct (overflows m e); [discriminate|]. intro H. injection H as <-. apply emit_float_one_token. Qed.
